@@ -8,19 +8,19 @@ cd "$wt" || exit 2
 demo=$(ls $tdir/seeded_demo*_test.go 2>/dev/null | head -1)
 [ -n "$demo" ] || { echo "no demo test in $tdir"; exit 2; }
 git checkout -q -- . ; git apply SEED/patch.diff || { echo "patch does not apply"; exit 2; }
-mv "$demo" /tmp/demo_aside.go
+mv "$demo" /tmp/demo_aside.$name.go
 go build ./... || { echo "BUILD FAILS"; exit 1; }
-go test -count=1 ./pkg/... > /tmp/confirm_suite.log 2>&1; suite=$?
+go test -count=1 ./pkg/... > /tmp/confirm_suite.$name.log 2>&1; suite=$?
 # a demo inside a plugin module (own go.mod): that module's build and tests belong to the suite, tests run from there
 runtest() { if [ -f "$tdir/go.mod" ]; then (cd "$tdir" && go test -count=1 . "$@"); else go test -count=1 ./$tdir/ "$@"; fi; }
 if [ -f "$tdir/go.mod" ]; then
-  (cd "$tdir" && go build ./... && go test -count=1 ./...) >> /tmp/confirm_suite.log 2>&1 || suite=1
+  (cd "$tdir" && go build ./... && go test -count=1 ./...) >> /tmp/confirm_suite.$name.log 2>&1 || suite=1
 fi
-mv /tmp/demo_aside.go "$demo"
-runtest $rx > /tmp/confirm_with.log 2>&1; with=$?
+mv /tmp/demo_aside.$name.go "$demo"
+runtest $rx > /tmp/confirm_with.$name.log 2>&1; with=$?
 # (no git stash here: the stash is shared by all worktrees of /repo, sub-agents may be using it)
 git apply -R SEED/patch.diff
-runtest $rx > /tmp/confirm_without.log 2>&1; without=$?
+runtest $rx > /tmp/confirm_without.$name.log 2>&1; without=$?
 git apply SEED/patch.diff
 echo "suite_with_change=$suite demo_with_change=$with demo_without_change=$without"
 if [ $suite -eq 0 ] && [ $with -ne 0 ] && [ $without -eq 0 ]; then
@@ -28,5 +28,5 @@ if [ $suite -eq 0 ] && [ $with -ne 0 ] && [ $without -eq 0 ]; then
   cp SEED/patch.diff $d/patch.diff; cp "$demo" $d/$(basename $demo); [ -f SEED/notes.md ] && cp SEED/notes.md $d/notes.md
   echo "CONFIRMED -> $d"
 else
-  echo "NOT CONFIRMED"; for f in /tmp/confirm_suite.log /tmp/confirm_with.log /tmp/confirm_without.log; do echo "-- $f"; tail -5 $f; done
+  echo "NOT CONFIRMED"; for f in /tmp/confirm_suite.$name.log /tmp/confirm_with.$name.log /tmp/confirm_without.$name.log; do echo "-- $f"; tail -5 $f; done
 fi
